@@ -156,7 +156,7 @@ func build(name string, dump bool) (hooked, snap, error) {
 
 			nodes = append(nodes, "/")
 
-			if _, e := v.Idm().AddUser("u1", "root"); e != nil {
+			if _, e := v.Idm().AddUser("u1", v.Idm().AdminGroup().Name()); e != nil {
 				step("AddUser", e)
 			}
 		}
